@@ -5,9 +5,12 @@ The model (Comrak/Xml.lean) covers `format_xml` completely: prolog, all 41 node 
 their attributes, the local `escape`, indentation, the Pre/Post traversal.  The oracle
 `readXml` and the expected element tree `xmlTree` are in Comrak/XmlLang.lean.
 
-Full-strength statements are kept visible as named propositions (`C09_wellformed_full`,
-`C09_mirrors_full`); both are refuted by a concrete `EscapedTag` witness, and proved
-(`xml_mirrors_tree_partial`) under the explicit decidable hypothesis `noEscapedTagT`.
+The full-strength statements are named propositions (`C09_wellformed_full`,
+`C09_mirrors_full`) and both are proved (`xml_mirrors_tree`, `xml_wellformed`): for every option
+vector and every tree in which no literal-kind node has children.  Until /repo commit ce28ea3
+they were refuted at `EscapedTag` (payload written verbatim inside the start tag); the payload
+is now an ordinary escaped attribute `tag`, `escapedTag_example` and
+`escapedTag_payload_before_fix` keep the former witness as a positive example.
 -/
 import Comrak.Lemmas.XmlRead
 import Comrak.Lemmas.XmlStack
@@ -87,20 +90,19 @@ theorem xml_attr_values_escaped (o : XmlOpts) (t : Tree) :
   · intro l _
     rw [xmlEscape_eq]; exact C19.escape_no_active l
 
-/-- **Names.** In a tree without `EscapedTag` nodes every element name is legal
+/-- **Names.** For every tree and every option vector every element name is legal
     (`[A-Za-z_][A-Za-z0-9_:.-]*`) and every piece written inside a start tag is a
     ` name="value"` attribute with a legal name. -/
-theorem xml_names_legal (o : XmlOpts) (t : Tree) (h : noEscapedTagT t = true) :
+theorem xml_names_legal (o : XmlOpts) (t : Tree) :
     ∀ tok ∈ renderXmlToks o t,
       xmlLegalName tok.name = true ∧
       ∀ a ∈ tok.attrs, ∃ n v, a = XAttr.mk n v ∧ xmlLegalName n = true := by
   have hall : (renderXmlToks o t).all tokNamesOk = true :=
-    renderXmlT_all o tokNamesOk (fun v => !isEscapedTag v)
+    renderXmlT_all o tokNamesOk (fun _ => true)
       (by
-        intro ind cx v sp l hq
-        have hq' : isEscapedTag v = false := by simpa using hq
-        simp [tokNamesOk, XTok.attrs, XTok.name, xmlName_legal, xmlAttrs_names o cx v sp hq'])
-      t 0 {} h
+        intro ind cx v sp l _
+        simp [tokNamesOk, XTok.attrs, XTok.name, xmlName_legal, xmlAttrs_names o cx v sp])
+      t 0 {} (Tree.allV_true t)
   intro tok htok
   have htk := List.all_eq_true.mp hall tok htok
   simp only [tokNamesOk, Bool.and_eq_true] at htk
@@ -109,9 +111,8 @@ theorem xml_names_legal (o : XmlOpts) (t : Tree) (h : noEscapedTagT t = true) :
   have := List.all_eq_true.mp htk.2 a ha
   cases a with
   | mk n v => exact ⟨n, v, rfl, by simpa [attrNameOk] using this⟩
-  | raw bs => simp [attrNameOk] at this
 
-/-! ## Whole documents: the full statements and the `EscapedTag` witness -/
+/-! ## Whole documents: the full statements -/
 
 /-- Full-strength well-formedness: the strict reader accepts the rendering of every tree the
     parser can produce. -/
@@ -122,55 +123,79 @@ def C09_wellformed_full : Prop :=
 def C09_mirrors_full : Prop :=
   ∀ (o : XmlOpts) (t : Tree), litLeafT t = true → readXml (renderXml o t) = some (xmlTree o t)
 
-/-- `|a|` with the spoiler extension: Document > Paragraph > EscapedTag("|") > Text("a"). -/
-def escapedTagTree : Tree :=
-  .node .document {} (.cons (.node .paragraph {} (.cons
-    (.node (.escapedTag [0x7C]) {} (.cons (.node (.text [0x61]) {} .nil) .nil)) .nil)) .nil)
-
-/-- `EscapedTag` writes its payload into the element name: `<escaped_tag|>` is rejected. -/
-theorem escapedTag_counterexample :
-    litLeafT escapedTagTree = true ∧ noEscapedTagT escapedTagTree = false ∧
-    (readXml (renderXml {} escapedTagTree)).isNone = true := by
-  decide +kernel
-
-theorem C09_wellformed_full_false : ¬ C09_wellformed_full := by
-  intro h
-  have h1 := h {} escapedTagTree escapedTagTree_litLeaf
-  have h2 := escapedTag_counterexample.2.2
-  cases hr : readXml (renderXml {} escapedTagTree) <;> simp_all
-where
-  escapedTagTree_litLeaf : litLeafT escapedTagTree = true := by decide
-
 /-- **Lexical level.** The bytes of any list of tokens with legal names and good attribute lists
     lex into exactly the tokens' events (white space between them, one trailing newline). -/
 theorem xml_lexes (ts : List XTok) (h : ts.all tokGood = true) (hne : ts ≠ []) :
     lexXml (spellXToks ts) = some (toksEvs [] ts ++ [.text nlB]) :=
   lexXml_spell ts h hne
 
-/-- **C09 at byte level, everything but `EscapedTag`.** For every option vector and every tree
-    in which no literal-kind node has children (all parsed trees) and no node is an `EscapedTag`,
-    the strict reader accepts the bytes `format_xml` writes and returns exactly the element tree
-    of the AST: one element per node, same kinds, order and nesting, every attribute the format
-    carries and every literal, destination, title, label and info string recovered byte for byte. -/
-theorem xml_mirrors_tree_partial (o : XmlOpts) (t : Tree)
-    (hl : litLeafT t = true) (he : noEscapedTagT t = true) :
+/-- Every token the renderer writes, for every tree and option vector, satisfies the hypothesis
+    of `xml_lexes`: legal element name, attributes with legal pairwise different names and
+    escaped values. -/
+theorem xml_tokens_lexable (o : XmlOpts) (t : Tree) : (renderXmlToks o t).all tokGood = true :=
+  renderXmlToks_good o t
+
+/-- **C09 at byte level.** For every option vector and every tree in which no literal-kind node
+    has children (all parsed trees), the strict reader accepts the bytes `format_xml` writes and
+    returns exactly the element tree of the AST: one element per node, same kinds, order and
+    nesting, every attribute the format carries and every literal, destination, title, label,
+    info string and escaped-tag payload recovered byte for byte. -/
+theorem xml_mirrors_tree (o : XmlOpts) (t : Tree) (hl : litLeafT t = true) :
     readXml (renderXml o t) = some (xmlTree o t) :=
-  readXml_renderXml o t hl he
+  readXml_renderXml o t hl
 
 /-- Well-formedness is the weaker half. -/
-theorem xml_wellformed_partial (o : XmlOpts) (t : Tree)
-    (hl : litLeafT t = true) (he : noEscapedTagT t = true) :
+theorem xml_wellformed (o : XmlOpts) (t : Tree) (hl : litLeafT t = true) :
     (readXml (renderXml o t)).isSome = true := by
-  rw [xml_mirrors_tree_partial o t hl he]; rfl
+  rw [xml_mirrors_tree o t hl]; rfl
 
-theorem C09_mirrors_full_false : ¬ C09_mirrors_full := by
-  intro h
-  have h1 := h {} escapedTagTree escapedTagTree_litLeaf
-  have h2 := escapedTag_counterexample.2.2
-  rw [h1] at h2
-  simp at h2
-where
-  escapedTagTree_litLeaf : litLeafT escapedTagTree = true := by decide
+theorem C09_mirrors_full_holds : C09_mirrors_full := xml_mirrors_tree
+theorem C09_wellformed_full_holds : C09_wellformed_full := xml_wellformed
+
+/-- The hypothesis `litLeafT` of `xml_mirrors_tree` is needed as well: the rendering of a
+    literal node with a child carries two end tags and is rejected by the reader. -/
+theorem literal_with_children_rejected :
+    (readXml (renderXml {} (.node (.text [0x61]) {} (.cons (.node .softBreak {} .nil) .nil)))).isNone = true := by
+  decide +kernel
+
+/-- `|a|` with the spoiler extension: Document > Paragraph > EscapedTag("|") > Text("a"). -/
+def escapedTagTree : Tree :=
+  .node .document {} (.cons (.node .paragraph {} (.cons
+    (.node (.escapedTag [0x7C]) {} (.cons (.node (.text [0x61]) {} .nil) .nil)) .nil)) .nil)
+
+/-- The former counterexample, now a positive example.  Before /repo commit ce28ea3
+    (`fix: write the payload of an escaped tag as an attribute in XML output`) `format_xml`
+    wrote the payload of an `EscapedTag` node verbatim inside the start tag (`<escaped_tag|>`),
+    the reader rejected this document and the full statements were false.  The defect was
+    repaired in /repo commit ce28ea3: the payload is the escaped value of the attribute `tag`
+    (`<escaped_tag tag="|">`), the document is accepted and read back as the element tree of
+    the AST. -/
+theorem escapedTag_example :
+    litLeafT escapedTagTree = true ∧
+    renderXmlToks {} escapedTagTree =
+      [.opn 0 XS.e_document [xAttr XS.a_xmlns XS.v_xmlns], .opn 2 XS.e_paragraph [],
+       .opn 4 XS.e_escaped_tag [xAttrE XS.a_tag [0x7C]], .leaf 6 XS.e_text [preserveAttr] [0x61],
+       .close 4 XS.e_escaped_tag, .close 2 XS.e_paragraph, .close 0 XS.e_document] ∧
+    (readXml (renderXml {} escapedTagTree)).isSome = true ∧
+    (match readXml (renderXml {} escapedTagTree) with
+     | some x => x.beq (xmlTree {} escapedTagTree)
+     | none => false) = true := by
+  decide +kernel
+
+/-- Before/after witness of the repair in /repo commit ce28ea3 on the smallest document, a
+    childless `EscapedTag("|")` as the root: the bytes written before the repair
+    (`<escaped_tag| />`, payload right after the element name) are rejected by the strict reader;
+    as modelled now (`<escaped_tag tag="|" />`) they are accepted.  A hostile payload `"<&>` is
+    accepted too and read back exactly. -/
+theorem escapedTag_payload_before_fix :
+    (readXml (XS.prolog ++ [0x3C] ++ XS.e_escaped_tag ++ [0x7C, 0x20, 0x2F, 0x3E, 0x0A])).isNone = true ∧
+    renderXml {} (.node (.escapedTag [0x7C]) {} .nil) =
+      XS.prolog ++ [0x3C] ++ XS.e_escaped_tag ++ [0x20] ++ XS.a_tag ++ [0x3D, 0x22, 0x7C, 0x22, 0x20, 0x2F, 0x3E, 0x0A] ∧
+    (readXml (renderXml {} (.node (.escapedTag [0x7C]) {} .nil))).isSome = true ∧
+    (match readXml (renderXml {} (.node (.escapedTag [0x22, 0x3C, 0x26, 0x3E]) {} .nil)) with
+     | some x => x.beq (.elem XS.e_escaped_tag [(XS.a_tag, [0x22, 0x3C, 0x26, 0x3E])] .nil)
+     | none => false) = true := by
+  decide +kernel
 
 /-- The defect repaired by `fix: escape the code block info string in XML output`: before the
     repair the info string of ```` ```a"b<c ```` was written as comrak's own text (`XVal.lit`),
@@ -192,7 +217,7 @@ def sampleTree : Tree :=
       (.node (.link [0x2F, 0x75, 0x22] [0x74, 0x26]) ⟨4, 1, 4, 5⟩ (.cons (.node (.text [0x20, 0x20]) {} .nil) .nil)) (.cons
       (.node (.footnoteReference [0x3C] 1 1) ⟨4, 6, 4, 9⟩ .nil) .nil))) .nil))
 
-example : litLeafT sampleTree = true ∧ noEscapedTagT sampleTree = true := by decide
+example : litLeafT sampleTree = true := by decide
 example : (renderXmlToks { sourcepos := true } sampleTree).length = 9 := by decide
 example :
     (match readXml (renderXml { sourcepos := true } sampleTree) with
